@@ -70,3 +70,17 @@ chk("C21", MC,
     "to the bus with enabled writers unless the group program processed it in that pass.",
     BASE_NOTE + " The dispatcher part runs under the C22 harness workaround on this tree.",
     "SMT symbolic execution of the emitted group program over a symbolic frame + compositional argument with C22's BMC", "A:8/C21")
+
+PY_NOTE = ("Trusted: z3 5.1, the proxy library and struct model of vf/pysym.py (the shadow package is the real source of "
+           "/repo/ebpfcat re-read on every run; only b''.join(...) is rewritten), the deterministic event loop, the protocol/bus "
+           "models named in the evidence. Every counterexample is re-run on the pristine ebpfcat package with concrete values "
+           "(and the recorded scheduling decisions) before it is reported. 'states' = symbolic paths explored, 'transitions' = "
+           "solver-checked decisions.")
+
+chk("C13", MC,
+    "The real coroutine EtherCat.roundtrip runs symbolically on a deterministic event loop for every enumerated call shape "
+    "(<=3 format strings from 12 formats, with/without values, trailing read-only format, data None / count / bytes incl. "
+    "empty): field values are full-width solver variables, raw data has symbolic length (0..8, thorough 16) and content, the "
+    "response is symbolic; obligations: queued payload == struct reference encoding, returned tuple == reference decoding at "
+    "the same offsets. All paths explored (exhaustive DART), every obligation discharged by z3 under the path condition.",
+    PY_NOTE, "symbolic execution of the real Python coroutine with z3-backed proxies (path-exhaustive within bounds)", "B:8/C13")
